@@ -83,19 +83,21 @@ Section Preserve.
       - destruct (reg_params (ds_reg d)) as [inobj ps0].
         pose proof (args_loop_P ps0 rs h inobj [] H) as H1.
         destruct (args_loop recd rs h inobj ps0 []) as [rs1 [args|e]]; cbn [fst] in *; [|exact H1].
-        destruct (effective_outcome (ds_reg d) (get_inv (rs_invs rs1) (r_id (ds_reg d)))); cbn [fst]; try exact H1.
-        destruct rets as [|t0 [|t1 ts]]; cbn [fst]; unfold Prs, with_p, log; cbn [rs_p].
-        + apply P_set_instance. exact H1.
-        + apply P_share_all. apply P_set_instance. exact H1.
-        + destruct (fan_out _ _ _ _ _) eqn:Hfo; cbn [fst rs_p]; [|exact H1].
-          eapply P_fan_out; [|exact Hfo]. exact H1.
+        destruct (cancels (ds_reg d) (get_inv (rs_invs rs1) (r_id (ds_reg d))));
+        (destruct (effective_outcome (ds_reg d) (get_inv (rs_invs rs1) (r_id (ds_reg d)))); cbn [fst]; try exact H1;
+        destruct rets as [|t0 [|t1 ts]]; cbn [fst]; unfold Prs, with_p, log; cbn [rs_p];
+        [ apply P_set_instance; exact H1
+        | apply P_share_all; apply P_set_instance; exact H1
+        | destruct (fan_out _ _ _ _ _) eqn:Hfo; cbn [fst rs_p]; [|exact H1];
+          eapply P_fan_out; [|exact Hfo]; exact H1 ]).
       - destruct (reg_params (ds_reg d)) as [inobj ps0].
         pose proof (args_loop_P ps0 rs h inobj [] H) as H1.
         destruct (args_loop recd rs h inobj ps0 []) as [rs1 [args|e]]; cbn [fst] in *; [|exact H1].
-        destruct (effective_outcome (ds_reg d) (get_inv (rs_invs rs1) (r_id (ds_reg d)))); cbn [fst]; try exact H1.
-        unfold Prs, with_p, log; cbn [rs_p].
-        destruct (fan_out _ _ _ _ _) eqn:Hfo; cbn [fst rs_p]; [|exact H1].
-        eapply P_fan_out; [|exact Hfo]. exact H1.
+        destruct (cancels (ds_reg d) (get_inv (rs_invs rs1) (r_id (ds_reg d))));
+        (destruct (effective_outcome (ds_reg d) (get_inv (rs_invs rs1) (r_id (ds_reg d)))); cbn [fst]; try exact H1;
+        unfold Prs, with_p, log; cbn [rs_p];
+        destruct (fan_out _ _ _ _ _) eqn:Hfo; cbn [fst rs_p]; [|exact H1];
+        eapply P_fan_out; [|exact Hfo]; exact H1).
     Qed.
   End WithRec.
 
@@ -125,6 +127,7 @@ Section Preserve.
   Proof.
     induction ds as [|d ds IH]; intros rs H; cbn [create_singletons]; [exact H|].
     destruct (singleton_pending (rs_p rs) d); [|apply IH; exact H].
+    destruct (build_cancelled rs); [exact H|].
     pose proof (create_top_preserves rs 0 d H) as H1.
     destruct (create_top rs 0 d) as [rs1 [a|e|]]; cbn [fst] in *; [apply IH| |]; exact H1.
   Qed.
@@ -289,11 +292,11 @@ Theorem create_reports_own_failure recd rs h d io ps rets er rs1 args :
   | OErr => snd (create recd rs h d) = RFail (ECtorErr (r_id (ds_reg d)))
   | OPanic => snd (create recd rs h d) = RFail (ECtorPanic (r_id (ds_reg d)))
   | ONil => snd (create recd rs h d) = RFail EValidation
-  | OOk => True
+  | OOk | OCancelBuild => True
   end.
 Proof.
   intros Hf Ha inv. unfold create. rewrite Hf. unfold reg_params. rewrite Hf. rewrite Ha.
-  fold inv. destruct (effective_outcome (ds_reg d) inv); cbn [snd]; auto.
+  fold inv. destruct (cancels (ds_reg d) inv); destruct (effective_outcome (ds_reg d) inv); cbn [snd]; auto.
 Qed.
 
 (* a failed construction caches nothing: the provider state is what the argument loop left *)
@@ -304,5 +307,75 @@ Theorem create_failure_caches_nothing recd rs h d io ps rets er rs1 args :
   rs_p (fst (create recd rs h d)) = rs_p rs1.
 Proof.
   intros Hf Ha Ho. unfold create. rewrite Hf. unfold reg_params. rewrite Hf. rewrite Ha.
-  destruct (effective_outcome (ds_reg d) _); try reflexivity. contradiction.
+  destruct (cancels (ds_reg d) _); destruct (effective_outcome (ds_reg d) _); try reflexivity; contradiction.
+Qed.
+
+(* ------------------------------------------------------------------ C14 / C13: what Close leaves behind *)
+Lemma upd_scope_len p h f : length (p_scopes (upd_scope p h f)) = length (p_scopes p).
+Proof. unfold upd_scope; cbn [p_scopes]. apply upd_nth_length. Qed.
+
+Lemma close_scope_len : forall fuel ord p h,
+  length (p_scopes (fst (fst (close_scope fuel ord p h)))) = length (p_scopes p).
+Proof.
+  induction fuel as [|f IH]; intros ord p h; cbn [close_scope]; [reflexivity|].
+  destruct (negb (sc_open (get_scope p h))); [reflexivity|].
+  set (p0 := upd_scope p h _).
+  assert (Hfold : forall ks acc, length (p_scopes (fst (fst acc))) = length (p_scopes p) ->
+            length (p_scopes (fst (fst (fold_left (fun '(pa, ea, na) k =>
+                     let '(pb, eb, nb) := close_scope f ord pa k in (pb, ea ++ eb, if nb =? 0 then na else S na)) ks acc)))) = length (p_scopes p)).
+  { induction ks as [|k ks IHk]; intros [[pa ea] na] Hacc; cbn [fold_left]; [exact Hacc|].
+    apply IHk. pose proof (IH ord pa k) as Hk. destruct (close_scope f ord pa k) as [[pb eb] nb]. cbn [fst] in *. congruence. }
+  specialize (Hfold (nodup_nat (order_by ord (open_children p0 h))) (p0, [], 0)).
+  destruct (fold_left _ _ (p0, [], 0)) as [[p1 evs1] n1]. cbn [fst] in Hfold.
+  destruct (close_insts (p_descs p1) h (sc_disp (get_scope p1 h))) as [evs2 n2]. cbn [fst].
+  rewrite upd_scope_len. apply Hfold. unfold p0. apply upd_scope_len.
+Qed.
+
+(* after Close a scope holds nothing: no cached instance, no disposable, and it is marked closed *)
+Theorem close_scope_releases fuel ord p h :
+  h < length (p_scopes p) -> sc_open (get_scope p h) = true ->
+  let s' := get_scope (fst (fst (close_scope (S fuel) ord p h))) h in
+  sc_cache s' = [] /\ sc_disp s' = [] /\ sc_open s' = false.
+Proof.
+  intros Hh Hopen. cbn [close_scope]. rewrite Hopen. cbn [negb].
+  set (p0 := upd_scope p h _).
+  pose proof (close_scope_len) as Hlen.
+  assert (Hfold : forall ks acc, length (p_scopes (fst (fst acc))) = length (p_scopes p) ->
+            length (p_scopes (fst (fst (fold_left (fun '(pa, ea, na) k =>
+                     let '(pb, eb, nb) := close_scope fuel ord pa k in (pb, ea ++ eb, if nb =? 0 then na else S na)) ks acc)))) = length (p_scopes p)).
+  { induction ks as [|k ks IHk]; intros [[pa ea] na] Hacc; cbn [fold_left]; [exact Hacc|].
+    apply IHk. pose proof (Hlen fuel ord pa k) as Hk. destruct (close_scope fuel ord pa k) as [[pb eb] nb]. cbn [fst] in *. congruence. }
+  specialize (Hfold (nodup_nat (order_by ord (open_children p0 h))) (p0, [], 0)).
+  destruct (fold_left _ _ (p0, [], 0)) as [[p1 evs1] n1]. cbn [fst] in Hfold.
+  destruct (close_insts (p_descs p1) h (sc_disp (get_scope p1 h))) as [evs2 n2]. cbn [fst].
+  assert (Hl1 : length (p_scopes p1) = length (p_scopes p)) by (apply Hfold; unfold p0; apply upd_scope_len).
+  unfold get_scope, upd_scope; cbn [p_scopes]. rewrite nth_upd_nth_same by lia. cbn. auto.
+Qed.
+
+(* resolution and initializers never change the number of scopes *)
+Lemma run_inits_len ds rs h : length (p_scopes (rs_p (fst (run_inits rs h ds)))) = length (p_scopes (rs_p rs)).
+Proof.
+  apply (run_inits_preserves (fun p => length (p_scopes p) = length (p_scopes (rs_p rs)))); try reflexivity;
+    intros; unfold cache_set, track_scope, single_set, track_single;
+    try destruct (inst_disposable i); cbn [p_scopes upd_scope]; rewrite ?upd_nth_length; assumption.
+Qed.
+
+(* a scope whose creation fails is forgotten: the provider's scope table is as long as before *)
+Theorem failed_create_scope_leaves_no_scope w pi parent ctx w' evs c mods :
+  pi < length (w_provs w) ->
+  create_scope w pi parent ctx = (w', evs, RErr c mods) ->
+  length (p_scopes (get_prov w' pi)) = length (p_scopes (get_prov w pi)).
+Proof.
+  intros Hpi. unfold create_scope.
+  destruct (negb (handle_ok (get_prov w pi) parent)); [intros H; inversion H; reflexivity|].
+  destruct ((parent =? 0) && negb (p_open (get_prov w pi))); [intros H; inversion H; reflexivity|].
+  destruct (negb (parent =? 0) && negb (sc_open (get_scope (get_prov w pi) parent))); [intros H; inversion H; reflexivity|].
+  match goal with |- context [run_inits ?a ?b ?c] => pose proof (run_inits_len c a b) as Hri; destruct (run_inits a b c) as [rs [r|]] end;
+    [|intros H; inversion H].
+  cbn [fst rs_p p_scopes] in Hri. rewrite app_length in Hri. cbn [length] in Hri.
+  pose proof (close_scope_len (scope_fuel (rs_p rs)) [] (rs_p rs) (length (p_scopes (get_prov w pi)))) as Hl.
+  destruct (close_scope _ _ _ _) as [[p2 evs2] n2]. cbn [fst] in Hl.
+  intros H; inversion H; subst.
+  unfold get_prov at 1; cbn [w_provs]. rewrite nth_upd_nth_same by exact Hpi. cbn [p_scopes].
+  rewrite firstn_length. fold (get_prov w pi). lia.
 Qed.
